@@ -9,6 +9,8 @@ makeCallArgs of vm/vmExprFunction.go).
 -/
 import Anko.Proofs.Conv
 import Anko.Model.Eval
+import Anko.Gen.ConvFlow
+import Anko.Props.ConvFlowTable
 
 namespace Anko.C11
 open Anko.Conv
@@ -96,5 +98,14 @@ example : convert (.slice .iface (.cons (.int .int64 300) (.cons .nilIface .nil)
 example : convert (.slice .iface (.cons (.int .int64 1) (.cons (.bool true) .nil))) (.slice .int64) = none := by rfl
 example : convert (.int .int64 233) .string = some (.str [195, 169]) := by rfl
 example : WF (.slice .iface (.cons (.int .int64 300) (.cons .nilIface .nil))) = true := by decide
+
+/-! ### The conversion at the Go boundary in the source (regenerated: Gen/ConvFlow)
+
+Every leaf statement of convertReflectValueToType, convertSliceOrArray, convertMap, convertVMFunctionToType (the adapter a script function gets when Go
+asks for a func type, the function literal inside it included) and reflectValueSlicetoInterfaceSlice, with the conditions it stands under, is the
+one written down in Props/ConvFlowTable next to Model/Conv: the order of the stages (identity, Go's own conversion with the array-length guard,
+element-wise slice / map conversion, function adapter, pointer, interface, string to byte / rune). Any edit of these functions - also a harmless one - breaks this obligation by name; the check then
+searches model and implementation for a failing input (DESIGN.md 13.3). -/
+theorem conversions_are_the_modelled_ones : Gen.ConvFlow.leaves = Tables.convFlow := by decide +kernel
 
 end Anko.C11
